@@ -36,6 +36,11 @@ def gen_cases(rng, tier):
     cases = []
     # (a) the whole table
     ops = [["load_money"]]
+    # wrong spellings of real codes BEFORE these are registered: unknown codes
+    for code, _, _ in rng.sample(table, 6):
+        ops.append(["cur_reg", code.lower()])
+        ops.append(["cur_reg", code.capitalize()])
+        ops.append(["cur_reg", code.lower()])
     for code, name, minor in table:
         ops.append(["cur_reg", code])
         ops.append(["cur_reg", code])
